@@ -32,7 +32,7 @@ type xport struct {
 	receiving bool // the receive loop is waiting in RecvMessage
 	dirty     int  // received messages released with a populated CapTable
 
-	// window control: the next outgoing message of kind holdKind ('c' Call, 'r' Return) stays inside
+	// window control: the next outgoing message of kind holdKind ('c' Call, 'r' Return, 'l' Release) stays inside
 	// send() until release is closed (a slow / back-pressured write)
 	holdKind byte
 	release  chan struct{}
@@ -63,7 +63,8 @@ func (x *xport) NewMessage(ctx context.Context) (rpccp.Message, func() error, ca
 		}
 		x.mu.Lock()
 		var wait chan struct{}
-		if (x.holdKind == 'c' && m.Which() == rpccp.Message_Which_call) || (x.holdKind == 'r' && m.Which() == rpccp.Message_Which_return) {
+		if (x.holdKind == 'c' && m.Which() == rpccp.Message_Which_call) || (x.holdKind == 'r' && m.Which() == rpccp.Message_Which_return) ||
+			(x.holdKind == 'l' && m.Which() == rpccp.Message_Which_release) {
 			wait = x.release
 			x.holdKind = 0
 		}
@@ -621,11 +622,11 @@ func (w *world) finish() string {
 	return s
 }
 
-// openWindow arms the interleaving control of a composite event: hold is "c" / "r" (the next
-// Call / Return stays inside the transport's send) or "a<j>" (server j withholds its acks).
+// openWindow arms the interleaving control of a composite event: hold is "c" / "r" / "l" (the next
+// Call / Return / Release stays inside the transport's send) or "a<j>" (server j withholds its acks).
 func (w *world) openWindow(hold string) func() {
 	switch hold[0] {
-	case 'c', 'r':
+	case 'c', 'r', 'l':
 		ch := make(chan struct{})
 		w.x.mu.Lock()
 		w.x.holdKind = hold[0]
